@@ -31,8 +31,8 @@ func init() {
 			"on the same Transcoder, with yields injected at the hook points; oracle: each RPC's canonical outcome equals its solo outcome and carries no foreign marker. (W2) full-duplex streams: the handler reads the request stream and " +
 			"writes the response stream from two goroutines while the request stream is fault-free or hits a malformed envelope / oversized frame / undecodable message / body error at a chosen message; oracle: fault-free streams deliver exactly " +
 			"the handler's messages; faulted streams stay well-formed for the client's protocol (complete frames, a prefix of what the handler wrote, exactly one end). Monitors: (1) Go race detector (reports read from this process's GORACE log, " +
-			"de-duplicated by the pair of innermost vanguard functions); (2) pool ownership automaton on the hook events (second release, hand-out of a live buffer or (de)compressor in use) with poison-on-release and a quarantine that detects writes after release; " +
-			"(3) thorough: porcupine linearizability check of the recorded pool history against a sequential ownership model. Two run modes: A = no shared monitor state touched by both goroutines of a stream (the race log is the verdict), " +
+			"de-duplicated by the pair of innermost vanguard functions); (2) pool ownership automaton on the hook events (second release of a buffer or (de)compressor, hand-out of a live one) with whole-array poison on release, a check at the next hand-out that the poison is intact, and a quarantine, both detecting writes after release; " +
+			"(W3) error paths one RPC at a time (tiny limits with chunked handler writes, messages failing inside the decompressor, cut bodies) with the automaton on. (3) thorough: porcupine linearizability check of the recorded pool history against a sequential ownership model. Two run modes: A = no shared monitor state touched by both goroutines of a stream (the race log is the verdict), " +
 			"B = effect monitors on. non-trivial = a round in which at least two RPCs overlapped / a stream in which both goroutines made progress between each other's hook points; distinct by (workload, G, fault, interleaving signature)",
 		Assume: []string{"the handler may read the request body and write the response concurrently (net/http full duplex); it does not call ResponseWriter methods from two goroutines itself"},
 		N:       func(t string) int { return tierN(t, 90, 1800) },
